@@ -5,6 +5,7 @@ import (
 	"context"
 	"encoding/binary"
 	"fmt"
+	"github.com/bartossh/Computantis/src/cache"
 	"math"
 	"math/rand"
 	"strings"
@@ -602,9 +603,91 @@ func c19Lists(w *core.WorkerCtx) {
 	}
 }
 
+// c19CacheLists: the awaiting cache is a transcoding path of its own (msgpack in, msgpack out, several entries per
+// address read in one call). Lists of 2-6 transactions for one receiver whose optional byte fields differ from entry
+// to entry - data absent, empty or present; receiver signature absent or present - in PRNG order: every entry read back
+// through the issuer's list, the receiver's list and the removal call must equal the transaction that was saved.
+func c19CacheLists(w *core.WorkerCtx) {
+	r := w.R
+	rng := core.Rand(w.Seed, "C19cachelists", w.Batch)
+	h, err := cache.New(800, 64)
+	if err != nil {
+		r.Inconc("cannot create the cache: " + err.Error())
+		return
+	}
+	defer h.Close()
+	for li := 0; li < w.Pick(40, 400); li++ {
+		I, R := ledger.NewActor("I"), ledger.NewActor("R")
+		n := 2 + rng.Intn(5)
+		orig := map[ledger.H]transaction.Transaction{}
+		var order []ledger.H
+		shape := ""
+		for i := 0; i < n; i++ {
+			var data []byte
+			switch rng.Intn(3) {
+			case 1:
+				data = []byte{}
+			case 2:
+				data = c19Bytes(rng, []int{1, 32, 33, 255}[rng.Intn(4)], 1+rng.Intn(3))
+			}
+			t := ledger.ForgeTrx(I, R.Addr, fmt.Sprintf("cache list %d/%d", li, i), data, spice.Melange{Currency: uint64(i), SupplementaryCurrency: uint64(1 + rng.Intn(1000))}, time.Now().Add(-time.Minute).Add(time.Duration(i)*time.Millisecond))
+			signed := rng.Intn(2) == 0
+			if signed {
+				ledger.CounterSign(&t, R)
+			}
+			shape += fmt.Sprintf("%d%v", len(data), signed)[:2]
+			saved := t
+			if err := h.SaveAwaitedTransaction(&saved); err != nil {
+				continue
+			}
+			orig[t.Hash] = t
+			order = append(order, t.Hash)
+		}
+		check := func(path string, got *transaction.Transaction, listLen int) {
+			r.Eval(1)
+			o, ok := orig[got.Hash]
+			if !ok {
+				r.Violate("C19", "list-entry-unknown/"+path, fmt.Sprintf("%s returned a transaction %s that was never saved", path, ledger.Hex(got.Hash)), nil)
+				return
+			}
+			if d := trxDiff(&o, got); len(d) > 0 {
+				r.Violate("C19", "silently-changed/"+path+"/"+fieldOnly(d[0]), fmt.Sprintf("%s: an entry of a list of %d awaiting transactions differs from the transaction that was saved: %v", path, listLen, d), nil)
+			} else if ok, why := ledger.TrxAuthentic(got); !ok {
+				r.Violate("C19", "verify-outcome-changed/"+path, fmt.Sprintf("%s: an entry of a list of %d awaiting transactions no longer verifies: %s", path, listLen, why), nil)
+			}
+		}
+		for _, who := range []struct{ name, addr string }{{"issuer", I.Addr}, {"receiver", R.Addr}} {
+			list, err := h.ReadTransactions(who.addr)
+			if err != nil {
+				r.Violate("C19", "cache-list-unreadable", fmt.Sprintf("the %s's list of %d awaiting transactions cannot be read: %v", who.name, len(orig), err), nil)
+				continue
+			}
+			if len(list) != len(orig) {
+				r.Violate("C19", "list-answer-incomplete/cache.ReadTransactions", fmt.Sprintf("the %s's list holds %d of the %d transactions saved", who.name, len(list), len(orig)), nil)
+			}
+			for i := range list {
+				check("cache.ReadTransactions/"+who.name, &list[i], len(list))
+			}
+		}
+		for _, th := range order {
+			got, err := h.RemoveAwaitedTransaction(th, R.Addr)
+			if err != nil {
+				r.Violate("C19", "cache-entry-unreadable", fmt.Sprintf("a saved awaiting transaction cannot be taken out again: %v", err), nil)
+				continue
+			}
+			check("cache.RemoveAwaitedTransaction", &got, len(orig))
+		}
+		r.Count("c19_cache_lists", 1)
+		r.Nontriv(fmt.Sprintf("cache-list/n%d/%s", n, shape))
+	}
+}
+
 func c19Worker(w *core.WorkerCtx) {
 	if w.Batch == 1 {
 		c19Lists(w)
+	}
+	if w.Batch == 2 {
+		c19CacheLists(w)
 	}
 	rng := core.Rand(w.Seed, "C19", w.Batch)
 	e := &c19Env{w: w, issuer: ledger.NewActor("I"), recv: ledger.NewActor("R"), sealer: ledger.NewActor("S"), ver: wallet.NewVerifier()}
